@@ -22,12 +22,39 @@ func (p Persist) Load(ctx context.Context, name string) ([]byte, error) {
 }
 
 // Store persists the given bytes in a file of the given name, if it
-// doesn't exist already.
+// doesn't exist already. The bytes are written to a temporary file that is
+// renamed onto the final name only once it is complete, so a file under the
+// final name is never partial, whatever the point at which a write is cut.
 func (p Persist) Store(ctx context.Context, name string, bytes []byte) error {
 	path := filepath.Join(p.basepath, name)
 	_, err := os.Stat(path)
-	if os.IsNotExist(err) {
-		return os.WriteFile(filepath.Join(p.basepath, name), bytes, 0644)
+	if err == nil {
+		return nil
+	}
+	if !os.IsNotExist(err) {
+		return err
+	}
+	f, err := os.CreateTemp(p.basepath, ".tmp-"+name+"-*")
+	if err != nil {
+		return err
+	}
+	tmp := f.Name()
+	_, err = f.Write(bytes)
+	if err == nil {
+		err = f.Sync()
+	}
+	if cerr := f.Close(); err == nil {
+		err = cerr
+	}
+	if err == nil {
+		err = os.Chmod(tmp, 0644)
+	}
+	if err == nil {
+		err = os.Rename(tmp, path)
+	}
+	if err != nil {
+		os.Remove(tmp)
+		return err
 	}
 	return nil
 }
